@@ -231,69 +231,6 @@ fn c16_three_groups() {
     core::mem::forget((got, s));
 }
 
-/// Ten filters in one special group (all ten boolean kinds, payloads symbolic):
-/// the group is introduced by `\nand\10` (the count in decimal), contains exactly
-/// the ten `\key\value` pairs (any order) and the string ends with NUL.
-#[cfg(kani)]
-fn ten_in_group(nor: bool) {
-    let f: [bool; 10] = kani::any();
-    let kinds: [u8; 10] = [0, 2, 3, 4, 5, 11, 13, 14, 15, 16];
-    let mut s = SearchFilters::new();
-    let mut i = 0;
-    while i < 10 {
-        s = if nor { s.insert_nor(make_filter(kinds[i], f[i])) } else { s.insert_nand(make_filter(kinds[i], f[i])) };
-        i += 1;
-    }
-    let got = filters_to_bytes(&s);
-    let prefix: &[u8] = if nor { b"\\nor\\10\\" } else { b"\\nand\\10\\" };
-    assert!(got.len() == prefix.len() - 1 + 104 + 1);
-    let mut i = 0;
-    while i < prefix.len() {
-        assert!(got[i] == prefix[i]);
-        i += 1;
-    }
-    assert!(got[got.len() - 1] == 0);
-    // every expected pair occurs (keys are distinct, so once each given the total length)
-    let mut k = 0;
-    while k < 10 {
-        let mut want = Enc::new();
-        ref_filter(kinds[k], f[k], &mut want);
-        let w = &want.v;
-        let mut found = false;
-        let mut at = prefix.len() - 1;
-        while at + w.len() <= got.len() - 1 {
-            let mut eq = true;
-            let mut j = 0;
-            while j < w.len() {
-                if got[at + j] != w[j] {
-                    eq = false;
-                }
-                j += 1;
-            }
-            if eq {
-                found = true;
-            }
-            at += 1;
-        }
-        assert!(found);
-        core::mem::forget(want);
-        k += 1;
-    }
-    core::mem::forget((got, s));
-}
-
-#[cfg(kani)]
-#[kani::proof]
-#[kani::unwind(116)]
-#[kani::stub(alloc::fmt::format, stub_format)]
-fn c16_t_ten_filters_nand() { ten_in_group(false) }
-
-#[cfg(kani)]
-#[kani::proof]
-#[kani::unwind(116)]
-#[kani::stub(alloc::fmt::format, stub_format)]
-fn c16_t_ten_filters_nor() { ten_in_group(true) }
-
 /// construct_payload: '1', region byte, "ip:port", NUL, filter string — for
 /// every region (no filters: a single NUL).
 #[cfg(kani)]
